@@ -194,6 +194,10 @@ impl Disk {
             Ptr::LogicalSector(s) => *s,
             _ => panic!("wrong pointer type")
         };
+        if self.boot_sector.secs_per_track()==0 || self.boot_sector.heads()==0 {
+            debug!("BPB has zero heads or zero sectors per track");
+            return Err(Box::new(Error::SectorNotFound));
+        }
         let psec = lsec % self.boot_sector.secs_per_track() as usize;
         let trk = lsec / self.boot_sector.secs_per_track() as usize;
         if trk >= self.img.track_count() {
